@@ -37,14 +37,13 @@ func VH_C11_batch() {
 			attempts[k]++
 			if m.cancelled {
 				// an exec (item or retry attempt) that starts after the cancellation event
-				if tid < len(m.startsAfterCancel) {
-					m.startsAfterCancel[tid]++
-				}
+				ti := m.threadIndex(tid)
+				m.startsAfterCancel[ti]++
 				if m.c <= 0 || tid == m.cancelThr || m.cancelThr == -1 {
 					vAssert(false, "no-item-or-attempt-starts-after-cancellation-on-a-thread-that-observed-it")
 				} else {
 					// another worker may have committed to one item before the cancellation landed
-					vAssert(m.startsAfterCancel[tid] <= 1, "at-most-one-already-committed-item-per-other-worker")
+					vAssert(m.startsAfterCancel[ti] <= 1, "at-most-one-already-committed-item-per-other-worker")
 					vCover("other-worker-committed")
 				}
 			}
